@@ -13,7 +13,18 @@
       WIndexRead -> WDone      released, applies what it read and returns
     [forced] = the run was driven that way; [blocked] = some released writer did not reach
     its next point in time (e.g. another parked writer holds a write lock), so the
-    executed order is not exactly [sched]. *)
+    executed order is not exactly [sched].
+
+    [CMulti]: the writer goroutines perform several calls each and a call may write several
+    entries ([documentstore.PutBatch] loops over [Put]); a goroutine is a model thread that
+    performs [count] single-entry writes ([Model.Writers.winitc]), and the schedule points can
+    park it in the middle of a batch.  The acknowledged entries of a thread are those written by
+    its successful calls (the entry of the returned operation, and for a batch the entries that
+    carry its documents), in call order.  [sched] is in steps of [wstep false] there as well
+    (four per write); where the implementation has no point between two steps (the return of a
+    write and the append of the same thread's next one) the driver lists them one after the
+    other, as they were executed.  With [c17_atomic_current] the schedule is not consulted: the
+    outcome [writers_atomic] promises does not depend on it. *)
 From Orbit Require Export Corr.Common Model.Writers Model.Current.
 
 (** Value of the model switch [atomic] that matches /repo as it stands: [AddOperation]
@@ -31,7 +42,14 @@ Inductive case :=
            (log_after : list N)     (* listing after the writers returned *)
            (view_complete : bool)   (* the view equals the replay of [log_after] *)
            (view_n : N)             (* shared: number of the entry whose value the view shows (0 = none) *)
-           (recovered : list N).    (* listing after close + reopen + Load(-1), ascending *)
+           (recovered : list N)     (* listing after close + reopen + Load(-1), ascending *)
+| CMulti (counts : list nat)        (* single-entry writes per writer thread *)
+         (sched : list nat)         (* model schedule executed (forced runs), [] otherwise *)
+         (forced blocked : bool)
+         (acked : list (list N))    (* per thread: entries acknowledged by its calls, in call order *)
+         (log_after : list N)       (* listing after the writers returned *)
+         (view_complete : bool)     (* the view equals the replay of [log_after] *)
+         (recovered : list N).      (* listing after close + reopen + Load(-1), ascending *)
 
 Definition memN (x : N) (l : list N) : bool := existsb (N.eqb x) l.
 
@@ -44,8 +62,15 @@ Fixpoint nodupN (l : list N) : bool :=
 (** [1; 2; ...; k] *)
 Definition seqN (k : nat) : list N := map N.of_nat (seq 1 k).
 
-Definition is_done (p : wpc) : bool := match p with WDone _ => true | _ => false end.
-Definition all_doneb (s : wst) : bool := forallb is_done (w_pcs s).
+Definition is_done (t : wthr) : bool :=
+  match wt_pc t with WIdle => Nat.eqb (wt_left t) 0 | _ => false end.
+Definition all_doneb (s : wst) : bool := forallb is_done (w_thr s).
+
+Fixpoint increasingN (l : list N) : bool :=
+  match l with
+  | x :: ((y :: _) as r) => (x <? y)%N && increasingN r
+  | _ => true
+  end.
 
 (** is [l] a rearrangement of 1..k *)
 Definition perm_of_seq (l : list N) (k : nat) : bool :=
@@ -90,6 +115,40 @@ Definition allowed_outcome (n : nat) (shared : bool) (returned log_after : list 
   existsb (fun k => listN_eqb recovered (seqN k)) (seq 1 n) &&
   (if shared then existsb (fun v => N.eqb view_n (N.of_nat v)) (seq 1 n) else true).
 
+(** the same three for threads of several writes ([counts]) *)
+Definition shape_ok (counts : list nat) (acked : list (list N)) : bool :=
+  list_eqb Nat.eqb (map (@length N) acked) counts && forallb increasingN acked.
+
+(** what [writers_atomic] promises *)
+Definition multi_atomic_outcome (counts : list nat) (acked : list (list N)) (log_after : list N)
+           (view_complete : bool) (recovered : list N) : bool :=
+  let n := list_sum counts in
+  shape_ok counts acked &&
+  perm_of_seq (concat acked) n &&
+  listN_eqb log_after (seqN n) &&
+  view_complete &&
+  listN_eqb recovered (seqN n).
+
+(** exact comparison with the model run on the executed schedule.  A view that reflects
+    1..[w_view] only may still equal the replay of the whole log (a put and the delete of the
+    same key both missing), so only a complete model view obliges the observation. *)
+Definition multi_exact_outcome (counts sched : list nat) (acked : list (list N)) (log_after : list N)
+           (view_complete : bool) (recovered : list N) : bool :=
+  let s := wrun false sched (winitc counts) in
+  all_doneb s &&
+  list_eqb listN_eqb (map (map N.of_nat) (acks s)) acked &&
+  listN_eqb log_after (seqN (w_log s)) &&
+  listN_eqb recovered (seqN (Writers.recovered s)) &&
+  (if Nat.eqb (w_view s) (w_log s) then view_complete else true).
+
+Definition multi_allowed_outcome (counts : list nat) (acked : list (list N)) (log_after : list N)
+           (recovered : list N) : bool :=
+  let n := list_sum counts in
+  shape_ok counts acked &&
+  perm_of_seq (concat acked) n &&
+  listN_eqb log_after (seqN n) &&
+  existsb (fun k => listN_eqb recovered (seqN k)) (seq 1 n).
+
 Definition check (c : case) : bool * bool :=
   match c with
   | CWriters n sched forced blocked shared returned log_after view_complete view_n recovered =>
@@ -100,6 +159,14 @@ Definition check (c : case) : bool * bool :=
            then exact_outcome n sched shared returned log_after view_complete view_n recovered
            else allowed_outcome n shared returned log_after view_n recovered in
     (agree, spec_holds returned log_after view_complete recovered)
+  | CMulti counts sched forced blocked acked log_after view_complete recovered =>
+    let agree :=
+      if c17_atomic_current
+      then multi_atomic_outcome counts acked log_after view_complete recovered
+      else if forced && negb blocked
+           then multi_exact_outcome counts sched acked log_after view_complete recovered
+           else multi_allowed_outcome counts acked log_after recovered in
+    (agree, spec_holds (concat acked) log_after view_complete recovered)
   end.
 
 Definition failures (base : nat) (cs : list case) := failures_from check base cs.
@@ -118,3 +185,15 @@ Example c17_ex_atomic :
   atomic_outcome 3 true [2; 1; 3] [1; 2; 3] true 3 [1; 2; 3] = true
   /\ spec_holds [2; 1; 3] [1; 2; 3] true [1; 2; 3] = true.
 Proof. split; vm_compute; reflexivity. Qed.
+
+(** the batch refutation of Proofs/WritersProofs.v as an observation: thread 0 writes 1 and 2,
+    thread 1 writes 3; the head persisted last is 2 *)
+Example c17_ex_batch :
+  multi_exact_outcome [2; 1]%nat [0; 0; 0; 0; 0; 1; 1; 1; 1; 0; 0; 0]%nat [[1; 2]; [3]] [1; 2; 3] true [1; 2] = true
+  /\ spec_holds (concat [[1; 2]; [3]]) [1; 2; 3] true [1; 2] = false.
+Proof. split; vm_compute; reflexivity. Qed.
+Example c17_ex_multi_atomic :
+  multi_atomic_outcome [2; 1; 3]%nat [[1; 4]; [2]; [3; 5; 6]] [1; 2; 3; 4; 5; 6] true [1; 2; 3; 4; 5; 6] = true
+  /\ multi_atomic_outcome [2; 1]%nat [[2; 1]; [3]] [1; 2; 3] true [1; 2; 3] = false
+  /\ multi_atomic_outcome [2; 1]%nat [[1; 2]; [3]] [1; 2; 3] true [1; 2] = false.
+Proof. repeat split; vm_compute; reflexivity. Qed.
